@@ -53,6 +53,7 @@ def deepExpected : List DeepExpect := [
   ⟨"cisco/parse.go", "postprocessParsed/stripPFSDefault", "lookup[prefix]", 0, "abb0f3481b8c7d0e", []⟩,
   ⟨"cisco/parse.go", "postprocessParsed/stripMetric", "lookup[prefix]", 0, "27656f5f09f31db5", []⟩,
   ⟨"cisco/parse.go", "postprocessParsed", "lookup[\"crypto ca certificate map\"]", 0, "e7303b37b46ec64b", []⟩,
+  ⟨"cisco/parse.go", "postprocessParsed", "lookup[\"username\"]", 0, "7c85c3e0b52cb470", []⟩,
   ⟨"cisco/parse.go", "postprocessParsed", "lookup[\"tunnel-group\"]", 0, "5e788ebeab593e3c", []⟩,
   ⟨"linux/parse.go", "normalizeIPTables", "pairs", 0, "647b114a2d7c7eaf", []⟩,
   ⟨"nsx/diff.go", "genUniqGroupNames", "a", 0, "b68557b2bac816d8", []⟩,
